@@ -103,7 +103,8 @@ def check(run):
         def bad(clause, exp, obs, t=None):
             run.mismatch(clause, t or (case['tag'] if case['mode'] == 'forms' else ctxtag), brief, exp, obs)
         try:
-            _one(case, bad, tags, ats, voc_tag, voc_at)
+            with core.guard(20):
+                _one(case, bad, tags, ats, voc_tag, voc_at)
         except Exception as ex:
             import traceback
             tb = traceback.extract_tb(ex.__traceback__)
